@@ -6,7 +6,7 @@ from ..finite import Unrecognised, ev_int
 from ..linform import lin, show_lin
 from ..program import AnalysisError
 from ..rules import calls, is_call, is_mcall, mcalls, mentions, mentions_any
-from ..terms import C, Evaluator, G, P, is_t, mk_proj, mk_slice, show, subterms
+from ..terms import C, Evaluator, G, P, is_t, mk_proj, mk_slice, show, subterms, mk_cmp, mk_phi
 from .common import Obs, arms_of, call0, choices_of, cond_has, ctor_fields, is_zero, retval_of, score_of, tuple_n
 
 MOD = "combinators/switch.py"
@@ -254,7 +254,7 @@ def analyse(obs: Obs, prog):
     wt = q[1]
     okw = False
     der = wt
-    if is_t(wt, "phi") and wt[1] == ("cmp", "==", tang, UNK):
+    if is_t(wt, "phi") and wt[1] == mk_cmp("==", tang, UNK):
         form = lin(wt[2])
         old = score_of(P("trace"))
         want = dict(lin(f.get("score")))
@@ -304,7 +304,7 @@ def analyse(obs: Obs, prog):
             derived=f"backward request = {show(bwd)[:200]}: a constant subscript into the branch family (always branch 0's request / placeholder)", expected="the backward request of the executed branch (chosen by the new index)", where=w)
     asr = [t for c, t in r.asserts]
     obs.add({"C06"}, "REQ-ACCEPT", "Switch.edit", any(is_t(t, "isinst") and t[1] == P("edit_request") and t[2] == "Update" for t in asr), derived=[show(t) for t in asr], expected="assert isinstance(edit_request, Update)", where=w)
-    obs.add({"C08", "C13"}, "TAG-BRANCH-INVENTORY", "Switch.edit/index-tag", mentions(r.ret, ("cmp", "==", tang, NOC)) and mentions(r.ret, ("cmp", "==", tang, UNK)), derived="branches on the index tangent", expected="documented resampling trigger: NoChange keeps branches, UnknownChange resimulates", where=w)
+    obs.add({"C08", "C13"}, "TAG-BRANCH-INVENTORY", "Switch.edit/index-tag", mentions(r.ret, mk_cmp("==", tang, NOC)) and mentions(r.ret, mk_cmp("==", tang, UNK)), derived="branches on the index tangent", expected="documented resampling trigger: NoChange keeps branches, UnknownChange resimulates", where=w)
     obs.note({"C04"}, "Switch._make_edit_fresh_trace reuses one key for simulate and the following edit (edit path; outside C04's statement)")
 
     # ---------------------------------------------------------------- switch() / or_else / mix
